@@ -9,8 +9,10 @@ import (
 	"bytes"
 	"context"
 	"fmt"
+	"io"
 	"net"
 	"net/textproto"
+	"os"
 	"sort"
 	"strings"
 	"testing"
@@ -22,6 +24,8 @@ import (
 	"verif/harness/internal/vf"
 
 	"github.com/yandex/pandora/core/engine"
+	"go.uber.org/zap"
+	"go.uber.org/zap/zapcore"
 	"pgregory.net/rapid"
 )
 
@@ -40,6 +44,106 @@ type Case struct {
 	ByName bool `json:"target_by_name,omitempty"`
 	// dial.dns-cache: false (default true: the name is resolved once per pool when the gun factory is built)
 	NoDNSCache bool `json:"dns_cache_off,omitempty"`
+	// Grow: entries whose body is made Size bytes long when the case is run (File holds the drawn, short body; growFile
+	// writes the long one): sizes around and above 64 KiB, as uploads have them. Entry indexes File.Items.
+	Grow []Grow `json:"grow_body,omitempty"`
+	// What the run observes on the side - none of it is part of what goes on the wire:
+	// AnswLog is the gun's `answlog` section: "" = not written (disabled), "default" = `enabled: true` and nothing else
+	// (the filter is then the documented default `error`: only 5xx answers are logged, i.e. nothing here), or enabled
+	// with that filter (all | warning | error).
+	AnswLog string `json:"answlog,omitempty"`
+	// TraceDump / Trace: the gun's `httptrace` section, `dump: true` ("calculate response bytes") and `trace: true`
+	// ("calculate different request stages").
+	TraceDump bool `json:"httptrace_dump,omitempty"`
+	Trace     bool `json:"httptrace_trace,omitempty"`
+	// LogLevel: the level of the logger the engine, and through Bind every gun, gets ("" drops everything; `log: level:
+	// debug` makes the guns log every request and answer with their bodies).
+	LogLevel string `json:"log_level,omitempty"`
+}
+
+type Grow struct {
+	Entry int `json:"item"`
+	Size  int `json:"size"`
+}
+
+// body sizes around the 64 KiB mark and well above it
+var grownSizes = []int{65537, 65536, 100000, 131072, 200000, 65535, 70000, 131073, 300000, 66000, 262144}
+
+// growable: the items of the file whose entry may carry a body (as ammogen draws them: every uripost and jsonline
+// entry, raw entries of every method but GET and HEAD).
+func growable(f ag.File) []int {
+	var out []int
+	if f.Format == "uri" {
+		return nil
+	}
+	for i, it := range f.Items {
+		if it.Entry == nil || (f.Format == "raw" && (it.Entry.Method == "GET" || it.Entry.Method == "HEAD")) {
+			continue
+		}
+		out = append(out, i)
+	}
+	return out
+}
+
+// growFile returns the file of the case with the bodies of c.Grow written out: the drawn body, then numbered lines
+// ("<offset in hex>\n", so that a missing, repeated or displaced piece shows), cut at Size bytes. The drawn body is at
+// most 20 KiB and, for jsonline, valid UTF-8; the lines are ASCII. Entries are copied, c.File is left as drawn.
+func growFile(c Case) (ag.File, error) {
+	if len(c.Grow) == 0 {
+		return c.File, nil
+	}
+	f := c.File
+	f.Items = append([]ag.Item(nil), c.File.Items...)
+	for _, g := range c.Grow {
+		if g.Entry < 0 || g.Entry >= len(f.Items) || f.Items[g.Entry].Entry == nil || g.Size < 1 {
+			return f, fmt.Errorf("harness: grow_body names item %d (size %d) of a file of %d items", g.Entry, g.Size, len(f.Items))
+		}
+		e := *f.Items[g.Entry].Entry
+		var b bytes.Buffer
+		b.Grow(g.Size + 16)
+		b.Write(e.Body)
+		for b.Len() < g.Size {
+			fmt.Fprintf(&b, "%07x\n", b.Len())
+		}
+		e.Body = b.Bytes()[:g.Size]
+		f.Items[g.Entry] = ag.Item{Entry: &e}
+	}
+	return f, nil
+}
+
+// show renders bytes for a message: quoted in full when short, else the beginning and the length.
+func show(b []byte) string {
+	if len(b) <= 2048 {
+		return fmt.Sprintf("%q", b)
+	}
+	return fmt.Sprintf("%q... (%d bytes)", b[:160], len(b))
+}
+
+// bodyDiff says where two bodies part.
+func bodyDiff(got, want []byte) string {
+	if len(got) <= 2048 && len(want) <= 2048 {
+		return fmt.Sprintf("body %q, ammo says %q", got, want)
+	}
+	i := 0
+	for i < len(got) && i < len(want) && got[i] == want[i] {
+		i++
+	}
+	return fmt.Sprintf("body of %d bytes arrived, the ammo's body has %d bytes; equal up to offset %d (arrived there: %s; ammo there: %s)",
+		len(got), len(want), i, show(got[i:min(len(got), i+64)]), show(want[i:min(len(want), i+64)]))
+}
+
+// engineLog is the logger of the given level; what it is handed is encoded (as a user's logger does) and dropped.
+func engineLog(level string) *zap.Logger {
+	var lvl zapcore.Level
+	switch level {
+	case "debug":
+		lvl = zapcore.DebugLevel
+	case "info":
+		lvl = zapcore.InfoLevel
+	default:
+		return pand.NopLog()
+	}
+	return zap.New(zapcore.NewCore(zapcore.NewConsoleEncoder(zap.NewDevelopmentEncoderConfig()), zapcore.AddSync(io.Discard), lvl))
 }
 
 var cfgHeaderNames = []string{"X-Test", "Accept", "User-Agent", "Cookie", "X-Cfg-Only", "Authorization", "X-Other-Cfg", "Referer"}
@@ -98,6 +202,30 @@ func genCase(t *rapid.T) Case {
 		c.ByName = true
 		c.NoDNSCache = rapid.IntRange(0, 3).Draw(t, "dnsCacheOff") == 0
 	}
+	// large bodies (added after seeded defect C09/m16): in one file in three of the formats that carry bodies, one entry
+	// (two in one case of four) gets a body around or above 64 KiB
+	if el := growable(c.File); len(el) > 0 && rapid.IntRange(0, 2).Draw(t, "growBody") == 0 {
+		n := 1
+		if len(el) > 1 && rapid.IntRange(0, 3).Draw(t, "growTwo") == 0 {
+			n = 2
+		}
+		first := rapid.IntRange(0, len(el)-1).Draw(t, "growEntry")
+		for k := 0; k < n; k++ {
+			size := rapid.SampledFrom(grownSizes).Draw(t, "growSize")
+			if rapid.IntRange(0, 3).Draw(t, "growJitter") == 0 {
+				size += rapid.IntRange(-3, 3000).Draw(t, "growBy")
+			}
+			c.Grow = append(c.Grow, Grow{Entry: el[(first+k)%len(el)], Size: size})
+		}
+	}
+	// observers of the run: every second case enables the answer log, one in three each of the httptrace options, one
+	// in two runs with a logger that takes info or debug messages
+	if rapid.Bool().Draw(t, "answlogEnabled") {
+		c.AnswLog = rapid.SampledFrom([]string{"default", "all", "error", "warning"}).Draw(t, "answlog")
+	}
+	c.TraceDump = rapid.IntRange(0, 2).Draw(t, "httptraceDump") == 0
+	c.Trace = rapid.IntRange(0, 2).Draw(t, "httptraceTrace") == 0
+	c.LogLevel = rapid.SampledFrom([]string{"", "debug", "", "info"}).Draw(t, "logLevel")
 	return c
 }
 
@@ -166,7 +294,7 @@ func matches(w wantReq, r target.Rec, targetAddr string, h2 bool) error {
 		return fmt.Errorf("request URI %q, ammo says %q", r.RequestURI, w.URI)
 	}
 	if !bytes.Equal(r.Body, w.Body) && !(len(r.Body) == 0 && len(w.Body) == 0) {
-		return fmt.Errorf("body %q, ammo says %q", r.Body, w.Body)
+		return fmt.Errorf("%s", bodyDiff(r.Body, w.Body))
 	}
 	if w.hostFromTarget {
 		th := targetAddr[:strings.LastIndex(targetAddr, ":")]
@@ -199,6 +327,13 @@ func check(c Case, o *vf.Obs) error {
 	if c.HTTP2 && (!c.SSL || c.Connect) {
 		return fmt.Errorf("harness: the http2 gun kind needs ssl and excludes the connect gun: %+v", c)
 	}
+	// the file as it is written: entries of c.Grow with their long bodies (c is this call's copy)
+	grown, err := growFile(c)
+	if err != nil {
+		return err
+	}
+	c.File = grown
+	rendered := c.File.Render()
 	answer := func(seq int, r *target.Rec) target.Resp {
 		switch c.Answer {
 		case "empty":
@@ -258,9 +393,14 @@ func check(c Case, o *vf.Obs) error {
 	if c.File.Format == "uri" && c.File.Layout.Inline {
 		ammo["uris"] = c.File.Lines()
 	} else {
-		name := pand.WriteFile("c09", ".ammo", c.File.Render())
+		name := pand.WriteFile("c09", ".ammo", rendered)
 		defer pand.Remove(name)
 		ammo["file"] = name
+	}
+	if c.File.Format == "jsonline" && len(rendered) > 60000 {
+		// "Maximum number of byte in jsonline ammo. Default is bufio.MaxScanTokenSize" (the provider's config struct):
+		// a user with entries beyond 64 KiB raises it
+		ammo["maxammosize"] = len(rendered) + 4096
 	}
 	if len(c.Headers) > 0 {
 		var hs []any
@@ -286,6 +426,25 @@ func check(c Case, o *vf.Obs) error {
 	if c.NoKeep {
 		gun["disable-keep-alives"] = true
 	}
+	// the observers (docs/eng/http-generator.md: answlog {enabled, path, filter - "Default: error"}, httptrace {dump, trace})
+	if c.AnswLog != "" {
+		// the answ log is a file of the real file system (lib/answlog: os.Create)
+		af, err := os.CreateTemp("", "c09-answ-*.log")
+		if err != nil {
+			return fmt.Errorf("harness: %v", err)
+		}
+		_ = af.Close()
+		defer os.Remove(af.Name())
+		al := map[string]any{"enabled": true, "path": af.Name()}
+		if c.AnswLog != "default" {
+			al["filter"] = c.AnswLog
+		}
+		gun["answlog"] = al
+	}
+	if c.TraceDump || c.Trace {
+		gun["httptrace"] = map[string]any{"dump": c.TraceDump, "trace": c.Trace}
+	}
+	observers := fmt.Sprintf("answlog %q, httptrace dump=%v trace=%v, log level %q", c.AnswLog, c.TraceDump, c.Trace, c.LogLevel)
 	pool := map[string]any{
 		"id": "p", "gun": gun, "ammo": ammo,
 		"result":  map[string]any{"type": "discard"},
@@ -296,7 +455,7 @@ func check(c Case, o *vf.Obs) error {
 	if err := pand.Decode(map[string]any{"pools": []any{pool}}, &conf); err != nil {
 		return fmt.Errorf("valid pool config rejected: %v", err)
 	}
-	eng := engine.New(pand.NopLog(), pand.Metrics(), conf)
+	eng := engine.New(engineLog(c.LogLevel), pand.Metrics(), conf)
 	var runErr error
 	ok, stacks := vf.Deadline(30*time.Second, func() { runErr = eng.Run(context.Background()) })
 	if !ok {
@@ -308,7 +467,7 @@ func check(c Case, o *vf.Obs) error {
 	eng.Wait()
 	recs := records()
 	if len(recs) != total {
-		return fmt.Errorf("%d requests reached the target, ammo holds %d entries x %d passes = %d\n--- file ---\n%q", len(recs), E, c.Passes, total, c.File.Render())
+		return fmt.Errorf("%d requests reached the target, ammo holds %d entries x %d passes = %d (%s)\n--- file ---\n%s", len(recs), E, c.Passes, total, observers, show(rendered))
 	}
 	// multiset equality (sequence equality with one instance)
 	used := make([]bool, len(recs))
@@ -316,7 +475,7 @@ func check(c Case, o *vf.Obs) error {
 		w := want[k%E]
 		if c.Instances == 1 {
 			if err := matches(w, recs[k], confTarget, c.HTTP2); err != nil {
-				return fmt.Errorf("request %d (entry %d): %v\nconfig headers %v\n--- file (%s) ---\n%q", k, k%E, err, c.Headers, c.File.Format, c.File.Render())
+				return fmt.Errorf("request %d (entry %d): %v\n%v gun, %s\nconfig headers %v\n--- file (%s) ---\n%s", k, k%E, err, gun["type"], observers, c.Headers, c.File.Format, show(rendered))
 			}
 			continue
 		}
@@ -335,7 +494,7 @@ func check(c Case, o *vf.Obs) error {
 			}
 		}
 		if !found {
-			return fmt.Errorf("no received request matches entry %d of the ammo (closest mismatch: %v)\nconfig headers %v\n--- file (%s) ---\n%q", k%E, lastErr, c.Headers, c.File.Format, c.File.Render())
+			return fmt.Errorf("no received request matches entry %d of the ammo (closest mismatch: %v)\n%v gun, %s\nconfig headers %v\n--- file (%s) ---\n%s", k%E, lastErr, gun["type"], observers, c.Headers, c.File.Format, show(rendered))
 		}
 	}
 	for _, r := range recs {
